@@ -6,7 +6,7 @@ from __future__ import annotations
 import random
 
 from vf import monitors, norm
-from vf.common import exps_workload, std_shards, try_compile, gsig, prog_from_json
+from vf.common import exps_workload, std_shards, try_compile, gsig, prog_from_json, safe_decompile
 from vf.esast import print_program
 from vf.lts import JUMP_IDX
 
@@ -99,11 +99,10 @@ def run_shard(shard, acc):
         if i < 2:
             acc.sample({"name": name, "text": r.text[:800], "ops": norm.raw(c.routine_ops)[:1]})
         # the SsbScript spelling of the same routines goes through the other compiler
-        try:
-            t, _ = norm.decompile_ssbs(c.routine_infos, c.routine_ops, c.named_coroutines)
-        except Exception:
-            acc.count("ssbs_decompile_failed")
+        res = safe_decompile(acc, norm.decompile_ssbs, c.routine_infos, c.routine_ops, c.named_coroutines, 10)
+        if res is None:
             continue
+        t = res[0]
         monitors.drain()
         one(acc, "//?: is-ssb-script: true\n" + t, {"name": name + ":ssbs", "text": t})
 
